@@ -204,6 +204,44 @@ def _static_cast(text, log):
     return res
 
 
+class IdxRule(object):
+    """logical-bounds obligations: every subscript  <array>[e]  (array given as a regex
+    on the text before the bracket) becomes  <array>[IDX(e, <len>)]; IDX asserts
+    0 <= e < len against the *logical* length (allocation is capacity-sized in bounded
+    units).  Must fire `count` times ('+' = at least once)."""
+    early = False
+
+    def __init__(self, array, length, count='+'):
+        self.array = array
+        self.length = length
+        self.count = count
+        self.pat = 'IDX ' + array
+
+    def apply(self, text, log, generic=False):
+        out = []
+        i = 0
+        n = 0
+        pat = re.compile(r'(?<![\w.>])(?:%s)\s*\[' % self.array)
+        while True:
+            m = pat.search(text, i)
+            if not m:
+                out.append(text[i:])
+                break
+            k = m.end() - 1
+            e = match_close(text, k)
+            inner = text[k + 1:e]
+            arr = text[m.start():k].strip()
+            ln = m.expand(self.length) if '\\' in self.length else self.length
+            out.append(text[i:k] + '[IDX(%s, %s, "%s")]' % (inner, ln, arr.replace('"', '')))
+            i = e + 1
+            n += 1
+        ok = (n >= 1) if self.count == '+' else (self.count is None or n == self.count)
+        if not ok:
+            raise ExtractError('IDX rule %r fired %d times, expected %s' % (self.array, n, self.count))
+        log.append({'rule': 'R-idx %s[e] -> [IDX(e,%s)]' % (self.array, self.length), 'fired': n})
+        return ''.join(out)
+
+
 GENERIC_RULES = [
     Rule(r'^[ \t]*#[ \t]*pragma[ \t]+omp[^\n]*\n', '/* R-omp: pragma dropped */\n', why='R-omp'),
     Rule(r'^[ \t]*AMGCL_T[IO]C\([^\n]*\);[ \t]*\n', '', why='R-tic'),
@@ -445,7 +483,40 @@ def read_repo(path):
         return f.read()
 
 
-def extract(cut, extra_types=()):
+def add_canaries(text, prefix):
+    """insert CANARY("<prefix>.k") after every '{' that opens a compound statement
+    following ')' / else / do, and at the start of the text.  With -DCXC_CANARY each
+    becomes assert(0) and must FAIL (= the block is reachable under the precondition)."""
+    out = []
+    n = 0
+    i = 0
+    last_sig = ''
+    out.append(' CANARY("%s.%d");' % (prefix, n))
+    n += 1
+    while i < len(text):
+        k = _skip_trivia(text, i)
+        if k != i:
+            out.append(text[i:k])
+            i = k
+            continue
+        c = text[i]
+        out.append(c)
+        if c == '{' and (last_sig == ')' or last_sig in ('else', 'do')):
+            out.append(' CANARY("%s.%d");' % (prefix, n))
+            n += 1
+        if not c.isspace():
+            if c.isalnum() or c == '_':
+                if last_sig and (last_sig[-1].isalnum() or last_sig[-1] == '_') and i > 0 and (text[i - 1].isalnum() or text[i - 1] == '_'):
+                    last_sig += c
+                else:
+                    last_sig = c
+            else:
+                last_sig = c
+        i += 1
+    return ''.join(out), n
+
+
+def extract(cut, extra_types=(), canaries=None):
     """returns (c_text, report)"""
     for t in extra_types:
         _TYPES.add(t)
@@ -472,6 +543,9 @@ def extract(cut, extra_types=()):
     for u in cut.uf:
         text = u.apply(text, log)
     text = fill_loops(text, cut.loops)
+    if canaries:
+        text, nc = add_canaries(text, canaries)
+        rep['canaries'] = nc
     rep['repo_text_sha'] = _sha(body)
     return text, rep
 
